@@ -112,3 +112,58 @@ def execute_parse_family(mod, cases, tier, vm_sample=None):
         "disagreements": len(disagreements),
     }
     return {"stats": stats, "disagreements": disagreements, "known_hits": known_hits, "observables": observables}
+
+
+def file_model_case(case, out, with_run):
+    rc = []
+    if with_run:
+        rc = [
+            "multi", [], out.get("oracle", []), bool(case.get("strict_cols")), case.get("labels", []), case.get("vars", []),
+            case.get("hash_threshold") or 0, case.get("engine_name", ""), case.get("answers", []),
+            case.get("default_answer") or ["complete", 0], case.get("make_fail", []), case.get("sys", []),
+            case.get("sys_default") or ["exit", 0, "", ""], True,
+        ]
+    return [case["main"], out["fs"], out["glob"], case.get("coltype") == "two", out.get("re_valid", []), rc]
+
+
+def execute_file_family(mod, cases, tier, vm_sample=None):
+    outs = vlib.run_impl("file", [strip(c) for c in cases], shards=8)
+    mcases = [file_model_case(c, o, c.get("mode") == "run") for c, o in zip(cases, outs)]
+    mouts = vlib.run_model("file", mcases)
+    if vm_sample is None:
+        vm_sample = 20 if tier == "quick" else 80
+    vm_n = vlib.vm_crosscheck("file", mcases, mouts, vm_sample, mod.PID)
+    disagreements = []
+    cats = collections.Counter()
+    keys = set()
+    observables = []
+    for c, o, m in zip(cases, outs, mouts):
+        io = {"parse": vlib.norm(o["parse"])}
+        mo = {"parse": m[0]} if isinstance(m, list) else {"model_error": m}
+        if c.get("mode") == "run":
+            io["final"] = runfam.drop_detail(vlib.norm(o["final"]))
+            io["events"] = runfam.canon_events(o["events"])
+            if isinstance(m, list) and len(m) > 1:
+                mo["final"] = m[1][0]
+                mo["events"] = runfam.canon_events(m[1][1])
+        pi, pm = mod.project(c, io), mod.project(c, mo)
+        for lab in mod.categories(c, io):
+            cats[lab] += 1
+        k = mod.nontrivial_key(c, io)
+        if k is not None:
+            keys.add(k)
+        if len(observables) < 2:
+            observables.append({"impl": pi, "model": pm})
+        extra = mod.direct_check(c, io) if hasattr(mod, "direct_check") else None
+        if pi != pm or extra:
+            d = {"case": c, "impl": pi, "model": pm, "spec": extra or mod.spec_verdict(c, pi, pm), "broken": "corr_" + mod.PID}
+            kid = mod.classify_known(c, io, mo) if hasattr(mod, "classify_known") else None
+            if kid:
+                d["known"] = kid
+            disagreements.append(d)
+    stats = {
+        "evaluations": len(cases), "model_evaluations": len(mcases), "distinct_nontrivial": len(keys), "rule": mod.RULE,
+        "categories": dict(sorted(cats.items())), "vm_compute_crosschecked": vm_n,
+        "samples": [{"files": c["files"][:4], "main": c["main"]} for c in cases[:2]], "disagreements": len(disagreements),
+    }
+    return {"stats": stats, "disagreements": disagreements, "known_hits": [], "observables": observables}
